@@ -446,6 +446,7 @@ mod imp {
             // an earlier e-graph in the same thread (same insertions, other equations and justifications)
             run.set("prelude", Rng::stream(seed, "prelude").chance(1, 4) as i64);
             run.set("nodewise", 0);
+            run.set("companion", 0); // C07 has its own prelude e-graph
             run
         }
         fn rule(&self) -> &'static str {
